@@ -316,3 +316,29 @@ Theorem C09_refused_claim_ends_sync_inhabited :
        negb (any_rolling R3X.cfg) || is_deleting R3X.parent && negb (should_finalize R3X.cfg R3X.parent) = false.
 Proof. exact Round6Proofs.C09_refused_claim_ends_sync_inhabited. Qed.
 Print Assumptions C09_refused_claim_ends_sync_inhabited.
+
+(* a ControllerRevision is deleted only when, after this sync's claim bookkeeping and move, it
+   records no child: on the pure functions, on the requests of manage_revisions, and on every
+   path of the rolling hook phase *)
+From MC Require Proofs.Round6Rolling.
+Theorem C09_deleted_revisions_record_no_children :
+  forall (prs : list prev) (x : prev),
+  In x prs ->
+  (forall d : prev, In d (prune prs) -> rev_name (pr_rev d) <> rev_name (pr_rev x)) ->
+  Round6Rolling.records_no_children (pr_rev x) /\ count_children (pr_rev x) = 0 /\
+  (forall k : claim_key, lists (pr_rev x) k = false).
+Proof. exact Round6Rolling.C09_deleted_revisions_record_no_children. Qed.
+Print Assumptions C09_deleted_revisions_record_no_children.
+
+Theorem C09_manage_revisions_deletes_only_emptied :
+  forall (ns : string) (observed : list revision) (prs2 : list prev),
+  all_calls (Round6Rolling.delete_justified prs2) (manage_revisions ns observed (map pr_rev (prune prs2))).
+Proof. exact Round6Rolling.C09_manage_revisions_deletes_only_emptied. Qed.
+Print Assumptions C09_manage_revisions_deletes_only_emptied.
+
+Theorem C09_sync_revisions_rolling_deletes_only_emptied :
+  forall (c : ccfg) (k : cache) (parent : json) (observed related : umap),
+  all_calls (Round6Rolling.delete_justified_by_step c (get_ns parent) observed)
+            (sync_revisions_rolling c k parent observed related).
+Proof. exact Round6Rolling.C09_sync_revisions_rolling_deletes_only_emptied. Qed.
+Print Assumptions C09_sync_revisions_rolling_deletes_only_emptied.
